@@ -192,6 +192,7 @@ def handleMoon (zs : Zones) (fn : String) (a : Array String) : Option String := 
       pure (exc tokF (moonZenith lat lon w))
   | "phase_asfloat" => let d ← getI a[0]!; pure (tokF (phaseAsFloat (α := F) d))
   | "phase" => let d ← getI a[0]!; pure (tokF (phase (α := F) d))
+  | "phase_dt" => let w ← getI a[0]!; pure (tokF (phaseWall (α := F) w))
   | _ => none
 
 /-- `F<hex>` | `S<cps>` | `O` -/
